@@ -327,6 +327,9 @@ def load_program(repo=None):
         for src, out in outs:
             with open(out) as fh:
                 units[src] = json.load(fh)
-        return Program(repo, units)
+        prog = Program(repo, units)
+        from . import bounds as _b
+        _b._PROG[0] = prog
+        return prog
     finally:
         shutil.rmtree(tmp, ignore_errors=True)
